@@ -12,7 +12,8 @@ import (
 )
 
 type UnitOpts struct {
-	LockMode bool // generate lock discipline obligations
+	LockMode   bool // generate lock discipline obligations
+	Sequential bool // Lock does not forget state (this call's own effects)
 }
 
 func (x *Exec) paramVal(st *State, fr *Frame, i int, p *ssa.Parameter) Val {
@@ -42,6 +43,7 @@ func (x *Exec) paramVal(st *State, fr *Frame, i int, p *ssa.Parameter) Val {
 func verifyUnit(env *Env, key string, fn *ssa.Function, opts UnitOpts) (u *Unit) {
 	x := newExec(env, key, fn)
 	x.lockMode = opts.LockMode
+	x.sequential = opts.Sequential
 	u = x.unit
 	defer func() {
 		if r := recover(); r != nil {
